@@ -39,6 +39,39 @@ CHECKS = {
          "recorder lock as happens-before order. Concurrency is sampled (runtime schedules), not exhaustively scheduled.",
     technique="TLA+ expected-parse operator + linearisability checking of recorded concurrent histories by TLC",
     design="4 C19"),
+ "C01": dict(
+    level="model_checking",
+    text="Two real fbb.Session objects exchange TLC/seed-generated message sets over an in-memory duplex that is also the scheduler "
+         "(free / run-A-first / run-B-first / synchronous; all-at-once, 1-byte, random and line segmentation), with GZIP on and off. "
+         "Every handler call, every wire unit lexed by the independent judge, both results, statistics and Close are recorded and "
+         "validated by TLC against the property monitor B2FProps.tla (each event must be an enabled action; End requires "
+         "CompleteExchange, exact statistics, both nil, both closed); the mechanism model B2F.tla is model-checked against the same "
+         "monitor properties.",
+    note="Trusted: TLC, the wire lexer and bitwise CRC written from docs/F6FBB-B2F, byte identity by bytes.Equal, recorder order "
+         "(events are appended inside the call path). Message sets and segmentations are sampled beyond the seed-independent core.",
+    technique="TLA+ property monitor + mechanism model; TLC trace validation of recorded real two-station sessions",
+    design="4 C01"),
+ "C02": dict(
+    level="fault_enumeration",
+    text="Link cut after every byte count k in either direction (all k for the smallest scenario, stride + confirmation window for the "
+         "others; thorough: all k), writer-sees-error / silent-success and in-flight-reverse-bytes delivered / dropped variants, storage "
+         "failure at every inbound index, multi-fault sequences, each followed by a clean session on the same mailboxes; in-memory "
+         "duplicate-suppressing handler and the real DirHandler. TLC validates every recorded session against B2FProps.tla: NoFalseSent "
+         "and the other invariants at every step, both Exchange calls return (watchdog), EndAll = delivered exactly once and reported.",
+    note="Trusted: as C01, plus the cut model of the in-memory link. A DirHandler crash inside a session is C11's subject.",
+    technique="fault enumeration on real sessions judged by TLC trace validation against the TLA+ monitor",
+    design="4 C02"),
+ "C04": dict(
+    level="fault_enumeration",
+    text="Real sessions through a tampering duplex: substitutions, deletions, insertions at (nearly) every offset of the SOH..EOT range "
+         "of four message shapes, the structural bytes, and sum-compensating +d/-d pairs inside block data, with LZHUF and gzip "
+         "payloads. The independent lexer and CRC decide whether the protocol's checks still hold for the altered bytes; TLC validates "
+         "against the monitor that nothing is stored unless they hold, nothing stored is corrupt, the sender does not record it as sent, "
+         "and a following clean session delivers it exactly once.",
+    note="Trusted: as C01, plus the classification of alterations by the independent lexer/CRC. An alteration the independent judge also "
+         "accepts as fully valid is excluded, as the property states.",
+    technique="fault enumeration (in-transit alterations) on real sessions judged by TLC trace validation against the TLA+ monitor",
+    design="4 C04"),
 }
 
 NOT_YET = "check not built yet (work in progress; see DESIGN.md section 8 for the build order)"
